@@ -218,6 +218,13 @@ def _leaf_ids(fn, op, depth=10):
     return out
 
 
+def mech_full_range(site):
+    """`v[..]` (RangeFull) cannot be out of bounds"""
+    if site.kind == "api:index" and "core::ops::range::RangeFull" in site.detail:
+        return "index with the full range `..`"
+    return None
+
+
 def mech_position_index(site):
     """`v[i]` where i was produced by `v.iter().position(..)` (or rposition) on the same, since unmodified, container: in bounds"""
     if site.kind != "api:index" or site.call is None or len(site.call.args) < 2:
@@ -393,6 +400,19 @@ def req_len_guard(site, req):
                         n = cv
                         guard_tgt = g["sw"]
     if n is None:
+        # `match v.len() { 1 => .., 2 => .. }`: an integer switch on the length with the arm's label as N
+        for (sw, lab, tgt) in F.guards_dominating(fn, site.bb):
+            info = F.switch_info(fn, sw)
+            if not info or info[0] != "int" or lab == "otherwise" or not lab.lstrip("-").isdigit():
+                continue
+            d = fn.blocks[sw]["term"]["discr"]
+            if d["k"] in ("copy", "move") and any(oc.kind == "call" and short(oc.call.name) in ("alloc::vec::Vec::len", "core::slice::<impl [T]>::len")
+                                                  for oc in F.origins(fn, d, depth=4, through_calls=False)):
+                cv = int(lab)
+                if n is None or cv < n:
+                    n = cv
+                    guard_tgt = tgt
+    if n is None:
         return False
     recv = _recv_root(fn, c)
     removes = 0
@@ -470,10 +490,29 @@ def run_inventory(R, rid, root_name, desc, restrict=None):
                 callers_of[b_].add(fa.key)
     unique_caller = {k_: next(iter(v_)) for k_, v_ in callers_of.items() if len(v_) == 1 and P.fns[k_].vis != "Public"}
     all_sites = []
+    # sites are enumerated on *views*: a helper that did not exist on the pinned tree is inlined into the functions it was carved out
+    # of, so its sites keep their old keys and are judged where the guards that license them are visible
+    pinned = PR.pinned_fns()
+    views = {}
+    inlined_into = defaultdict(set)
+    for k in sorted(reach):
+        f = P.fns[k]
+        if f.derived or f.kind == "Closure" or (pinned and f.spath not in pinned):
+            continue
+        v = PR.view(P, f)
+        views[k] = v
+        for nm in getattr(v, "inlined", []) or []:
+            inlined_into[nm].add(k)
     for k in sorted(reach):
         f = P.fns[k]
         if f.derived:
             continue
+        if f.kind != "Closure" and pinned and f.spath not in pinned and f.spath in inlined_into:
+            # analysed inside every function it was inlined into - unless some caller could not inline it
+            callers = callers_of.get(k, set())
+            if callers and all(P.fns[c_].spath in pinned or P.fns[c_].spath in inlined_into for c_ in callers):
+                continue
+        f = views.get(k, f)
         for s in S.enumerate_sites(f):
             if restrict is None or restrict(s):
                 all_sites.append(s)
@@ -483,7 +522,7 @@ def run_inventory(R, rid, root_name, desc, restrict=None):
     for key in sorted(by_key):
         ss = by_key[key]
         for idx, s in enumerate(sorted(ss, key=lambda s: (s.file, s.line))):
-            how = mech_const_divisor(s) or mech_counter(s) or mech_const_ctor(s) or mech_lengths(s) or mech_const_clamp(s) or mech_position_index(s) or mech_guarded_sub(s)
+            how = mech_const_divisor(s) or mech_counter(s) or mech_const_ctor(s) or mech_lengths(s) or mech_const_clamp(s) or mech_position_index(s) or mech_guarded_sub(s) or mech_full_range(s)
             if how:
                 R.ok(rid, key, "mechanical: " + how, s.loc(), nontrivial=False)
                 continue
